@@ -304,9 +304,9 @@ pub fn run(ctx: &Ctx) {
     ctx.set_rule("texts: 0..8 lines over tokens {empty, '-', '- ', '--', the armor boundary strings, 'Hash: SHA256', 'From ', words, multi-byte UTF-8, trailing SP/TAB runs, trailing NBSP/U+3000/VT/FF, lone CR inside and at the end} x terminators {LF, CRLF} x final newline or not; signed through sign/new/new_many (1..2 signers, zoo algorithms, hash algorithms); oracles: signed_text() == reference RFC 9580 7.2 form; own signatures verify; emitted document judged by an independent splitter (exactly the text, dash-escaped lines, one signature block); from_string round trip keeps text, signed form, signatures and validity; re-emission stable; one edit of the text section: verifies iff the reference signed form is unchanged; non-trivial = every text; distinct = (text, signers)");
     ctx.assume("signed form = trailing SP/TAB of each LF-terminated line removed (a CR directly before the LF belongs to the line ending), then the C14 canonicalization");
     zoo::warm(zoo::CHEAP_SIGNERS);
-    let n = ctx.tier.pick(12_000u64, 300_000);
+    let n = ctx.tier.pick(12_000u64, 2_400_000);
     ctx.group("grammar-texts", Source::Random { n, tape_len: 200 }, |t, rec| roundtrip_case(t, rec, zoo::CHEAP_SIGNERS));
     zoo::warm(zoo::ALL_SIGNERS);
-    let n = ctx.tier.pick(600u64, 12_000);
+    let n = ctx.tier.pick(600u64, 96_000);
     ctx.group("grammar-texts-all-algorithms", Source::Random { n, tape_len: 200 }, |t, rec| roundtrip_case(t, rec, zoo::ALL_SIGNERS));
 }
